@@ -204,8 +204,49 @@ class CFG:
                 return False
             cur = nxt
 
+    CROSSCHECK = False          # thorough tier: re-decide by bounded path enumeration and compare
+    STATS = {'paths_enumerated': 0, 'crosschecks': 0}
+
     def every_path_passes(self, src, dst, through, drop_labels=(), avoid_edges=()):
         """True iff every path src -> dst contains a node of `through` (src/dst themselves excluded unless listed)."""
+        r = self._every_path_passes(src, dst, through, drop_labels, avoid_edges)
+        if CFG.CROSSCHECK:
+            e = self._every_path_passes_enum(src, dst, through, drop_labels, avoid_edges)
+            CFG.STATS['crosschecks'] += 1
+            if e is not None and e != r:
+                from .core import AnalysisError
+                raise AnalysisError('must-pass-through verdicts disagree (reachability %s, path enumeration %s) between %r and %r'
+                                    % (r, e, self.nodes[src], self.nodes[dst]))
+        return r
+
+    def _every_path_passes_enum(self, src, dst, through, drop_labels=(), avoid_edges=(), cap=20000):
+        through = set(through)
+        avoid_edges = set(avoid_edges)
+        if src in through or dst in through:
+            return True
+        n = 0
+        stack = [(src, {src: 1})]
+        while stack:
+            a, cnt = stack.pop()
+            for b, lab in self.succ[a]:
+                if lab in drop_labels or (a, lab) in avoid_edges or b in through:
+                    continue
+                if b == dst:
+                    CFG.STATS['paths_enumerated'] += n + 1
+                    return False
+                if cnt.get(b, 0) >= 2:
+                    continue
+                n += 1
+                if n > cap:
+                    CFG.STATS['paths_enumerated'] += n
+                    return None
+                c2 = dict(cnt)
+                c2[b] = c2.get(b, 0) + 1
+                stack.append((b, c2))
+        CFG.STATS['paths_enumerated'] += n
+        return True
+
+    def _every_path_passes(self, src, dst, through, drop_labels=(), avoid_edges=()):
         through = set(through)
         avoid_edges = set(avoid_edges)
         if src in through or dst in through:
